@@ -21,6 +21,7 @@ func TestProp(t *testing.T) {
 			"the binary is built without the `view` tag, like the default build: view.Init registers nothing",
 			"effective credentials per the unchanged main.go: a non-empty QRYN_*/CLOKI_* variable overrides the config file, each variable on its own; empty = absent; both prefixes set to different values is ambiguous (either value may be the effective one)",
 			"config/config-rand run the real package main as a child process in MODE=reader (writer/all need a live ClickHouse at start-up)",
+			"a request with the right credentials must start the route's handler (observed by wrapping every walked route's handler) and be indistinguishable from the same request to the same assembly without credentials configured; OPTIONS is exempt from the first rule",
 			"database interaction = a TCP connection to DATABASE_DATA[0].Host:Port, a look-up in the writer's service registry or a Request() on an insert service",
 		},
 	})
